@@ -22,7 +22,7 @@ func init() {
 		Assumptions: []string{"ties may come in any order", "missing dims sort before present ones (ASC)", "ordering between values of different dynamic type is unspecified, only totality (no panic) and same-type order are required"},
 		Cases: func(tier string) int {
 			if tier == "quick" {
-				return 24
+				return 72
 			}
 			return 300
 		},
